@@ -58,6 +58,31 @@ fn with_pipes(p: &Program, c: &Chunk) -> Program {
     q
 }
 
+/// Put a filler blob in front of the program, sized so that a data packet that is written from
+/// inside add_point (not the last packet of its cloud) ends exactly at the end of a page payload:
+/// the page write is then the last thing the page layer does in that call.
+fn tune_packet_end_to_page_end(prog: &mut Program) -> bool {
+    for l in (0..1020usize).step_by(4) {
+        let mut p = prog.clone();
+        p.calls.insert(0, Call::Blob { data: crate::model::Bytes { len: l, seed: 17, pat: 0 }, pipe: Chunk::Full, fail_after: None });
+        let image = match super::c17::make_source(&p) {
+            Ok((i, _)) => i,
+            Err(_) => return false,
+        };
+        if let Some(map) = crate::corrupt::map_of(&image) {
+            let hit = map.cvs.iter().any(|cv| {
+                let data: Vec<&crate::refcodec::decode::PacketInfo> = cv.packets.iter().filter(|k| k.kind == 1).collect();
+                data.len() > 1 && data[..data.len() - 1].iter().any(|k| (k.logical + k.length as u64) % 1020 == 0)
+            });
+            if hit {
+                *prog = p;
+                return true;
+            }
+        }
+    }
+    false
+}
+
 fn flavours(op: &DevOp) -> Vec<FaultKind> {
     match op.kind {
         OpKind::Read => vec![
@@ -196,7 +221,7 @@ fn judge_persistent(exec: &Executed, image: &[u8], ctx: &Ctx, st: &mut RunStats)
             ))
         }
     };
-    if let Some((class, detail)) = compare_points(&rb.file, &exec.expected.file).or_else(|| compare_blobs(&rb, &exec.expected)) {
+    if let Some((class, detail)) = compare_points(&rb.file, &exec.expected.file).or_else(|| compare_blobs(&rb, &exec.expected)).or_else(|| compare_metadata(&rb.file, &exec.expected.file)) {
         return Some((
             "ok-but-incomplete-file".into(),
             format!("the caller went on after a failed call; top-level finalize then returned Ok, but what the successful calls handed in does not read back ({class}): {detail}"),
@@ -549,7 +574,7 @@ impl Prop for C16 {
     fn meta(&self) -> Meta {
         Meta {
             level: "fault_enumeration",
-            rule: "per run index one small seeded writer program (0-3 items, knob on, <= 40 points per cloud, payloads <= 2.6 KiB; every sixteenth program, read by a reader session, also holds a payload of 64 KiB or more). Iterators are polled three more times after their first error. Index % 4 == 3: chunking mode - the program and the read-everything history (validate_crc, raw_xml, open, xml, listings, raw + simple iteration of every cloud, every blob) under 4 transfer schedules (one byte at a time, boundary-biased, 2 random) for device, source pipes and sinks must give byte-identical images and identical results as full transfers. Otherwise: single-error mode, exhaustive per program - the fault-free device-operation sequence (device and pipes on one clock) of the writer program (even indices) or of the reader session (odd) is recorded, and for EVERY operation and every flavour applicable to its kind (hard error of kind Other; an error of another kind - TimedOut, WouldBlock, UnexpectedEof, InvalidData, BrokenPipe, NotFound by operation number, UnexpectedEof on every read; short transfer then error, two cut sizes on reads; EINTR; write returning 0; disk full from that write on) the session is re-run with exactly that fault. Writer runs meet every fault three times: with a caller that stops at the failed call and drops everything, with one that gives up the affected item and goes on with the next call up to the top-level finalize, and with one that calls a failed top-level finalize a second time. Oracle: every device operation that reported an error lies inside an API call that returned Err (iterators: Some(Err)), except EINTR (may be absorbed: then the result must equal the fault-free one) and operations inside Drop; every operation of a reader session that met no failing device operation gives the fault-free result, also behind the failed one; no panic; whenever top-level finalize returned Ok the image equals the fault-free image and is flushed; for the callers that go on: whenever top-level finalize returned Ok the file opens and everything the successful calls handed in reads back. Distinct = (program shape, fault kind, operation number, API call class); non-trivial = the fault fired".into(),
+            rule: "per run index one small seeded writer program (0-3 items, knob on, <= 40 points per cloud, payloads <= 2.6 KiB; every sixteenth program, read by a reader session, also holds a payload of 64 KiB or more; every eighth writer session has a filler blob sized so that a packet written from inside add_point ends exactly at a page end). Iterators are polled three more times after their first error. Index % 4 == 3: chunking mode - the program and the read-everything history (validate_crc, raw_xml, open, xml, listings, raw + simple iteration of every cloud, every blob) under 4 transfer schedules (one byte at a time, boundary-biased, 2 random) for device, source pipes and sinks must give byte-identical images and identical results as full transfers. Otherwise: single-error mode, exhaustive per program - the fault-free device-operation sequence (device and pipes on one clock) of the writer program (even indices) or of the reader session (odd) is recorded, and for EVERY operation and every flavour applicable to its kind (hard error of kind Other; an error of another kind - TimedOut, WouldBlock, UnexpectedEof, InvalidData, BrokenPipe, NotFound by operation number, UnexpectedEof on every read; short transfer then error, two cut sizes on reads; EINTR; write returning 0; disk full from that write on) the session is re-run with exactly that fault. Writer runs meet every fault three times: with a caller that stops at the failed call and drops everything, with one that gives up the affected item and goes on with the next call up to the top-level finalize, and with one that calls a failed finalize (of a point cloud or the top-level one) a second time. Oracle: every device operation that reported an error lies inside an API call that returned Err (iterators: Some(Err)), except EINTR (may be absorbed: then the result must equal the fault-free one) and operations inside Drop; every operation of a reader session that met no failing device operation gives the fault-free result, also behind the failed one; no panic; whenever top-level finalize returned Ok the image equals the fault-free image and is flushed; for the callers that go on: whenever top-level finalize returned Ok the file opens and everything the successful calls handed in (points, payloads, metadata) reads back. Distinct = (program shape, fault kind, operation number, API call class); non-trivial = the fault fired".into(),
             assumptions: vec![
 "in the reader sessions and the chunking mode nothing follows a failed call; what a writer offers after a failed call is judged only through the top-level finalize (it must not report success for an incomplete file)".into(),
                 "EINTR is injected on read and write transfers only".into(),
@@ -591,6 +616,15 @@ impl Prop for C16 {
             // a reader session over a payload of 64 KiB or more
             let len = *g.pick(&[65_536usize, 65_537, 66_000, 70_001]);
             prog.calls.push(Call::Blob { data: crate::model::Bytes::draw(&mut g, len), pipe: Chunk::Full, fail_after: None });
+        }
+        if rc.index % 8 == 2 {
+            // writer session in which a packet written by add_point ends exactly at a page end
+            if !prog.calls.iter().any(|c| matches!(c, Call::Pc { end: SubEnd::Finalize, steps, .. } if steps.iter().any(|s| matches!(s, PcStep::Points { n, .. } if *n > 20)))) {
+                use crate::model::*;
+                let proto: Vec<Rec> = [0u8, 1, 2].iter().map(|i| Rec { name: Name::Std(*i), dt: DType::Double { min: None, max: None } }).collect();
+                prog.calls.push(Call::Pc { guid: gen_guid(&mut g), proto, steps: vec![PcStep::Points { n: 30 + g.usize_below(10), seed: g.next_u64() }], end: SubEnd::Finalize });
+            }
+            tune_packet_end_to_page_end(&mut prog);
         }
         let mut c = Rng::stream(rc.run_seed, "chunk-dev");
         if rc.index % 4 == 3 {
